@@ -12,14 +12,14 @@ open Registration
 
 /-- **Acceptance is exactly the conjunction the property lists**: op-cert present and signed by the
 cold key; the verification key signed by the KES key named in that very certificate at an evolution
-within one period of the announced one (and ≤ 64); valid proof of possession; the pool id derived from
+within one period of the announced one (and ≤ 63, the last evolution of the key); valid proof of possession; the pool id derived from
 the cold key present in the round's stake distribution, whose value is the recorded stake; key not
 already registered. -/
 theorem C07_iff (P : Prim) (sd : Nat → Option Nat) (registered : List Nat) (p : Params) (pid st : Nat) :
     register P sd registered p = .ok (pid, st) ↔
       ∃ oc e sig, p.opcert = some oc ∧ p.kesEvolutions = some e ∧ p.kesSig = some sig ∧
         P.opcertOk oc = true ∧
-        (∃ t, e - 1 ≤ t ∧ t ≤ e + 1 ∧ t ≤ 64 ∧ P.kesVerify t (P.kesVkOf oc) p.vk sig = true) ∧
+        (∃ t, e - 1 ≤ t ∧ t ≤ e + 1 ∧ t ≤ 63 ∧ P.kesVerify t (P.kesVkOf oc) p.vk sig = true) ∧
         P.poolIdOf (P.coldOf oc) = some pid ∧ sd pid = some st ∧
         P.popVerify p.vk = true ∧ p.vk ∉ registered := register_iff P sd registered p pid st
 
@@ -28,13 +28,13 @@ theorem C07_stake_from_distribution (P : Prim) (sd registered) (p : Params) (s' 
     register P sd registered { p with claimedStake := s', partyId := pid' } = register P sd registered p :=
   stake_from_distribution P sd registered p s' pid'
 
-/-- the KES window: exactly the evolutions `e-1 … e+1`, capped at 64; empty for `e ≥ 66` -/
+/-- the KES window: exactly the evolutions `e-1 … e+1`, capped at 63 (the last evolution of a Sum6 KES key); empty for `e ≥ 65` -/
 theorem C07_window (P : Prim) (oc vk sig e : Nat) :
     kesWindow P oc vk sig e = true ↔
-      ∃ t, e - 1 ≤ t ∧ t ≤ e + 1 ∧ t ≤ 64 ∧ P.kesVerify t (P.kesVkOf oc) vk sig = true :=
+      ∃ t, e - 1 ≤ t ∧ t ≤ e + 1 ∧ t ≤ 63 ∧ P.kesVerify t (P.kesVkOf oc) vk sig = true :=
   kesWindow_iff P oc vk sig e
 
-theorem C07_window_empty (P : Prim) (oc vk sig e : Nat) (he : 66 ≤ e) : kesWindow P oc vk sig e = false := by
+theorem C07_window_empty (P : Prim) (oc vk sig e : Nat) (he : 65 ≤ e) : kesWindow P oc vk sig e = false := by
   cases h : kesWindow P oc vk sig e with
   | false => rfl
   | true =>
@@ -108,5 +108,11 @@ theorem C07_aggregator_repaired :
 /-- non-vacuity: a valid registration is stored -/
 example : ((RegLeader.run RegLeader.prod {} [.openRound 5 RegLeader.sd0, .reg RegLeader.aGood]).1.rows.map (·.pid)) = [7] := by
   decide +kernel
+
+/-- FIXED FINDING (the cap was 64): the KES library accepts a signature made at the last evolution 63 for any
+greater value, so with the old cap a signature made at 63 was accepted for an announced value of 65 — two
+evolutions away. With the cap at 63 the window of 65 is empty, and every tried evolution is one of the key. -/
+theorem C07_evolution_cap (P : Prim) (oc vk sig : Nat) : kesWindow P oc vk sig 65 = false :=
+  C07_window_empty P oc vk sig 65 (by decide)
 
 end C07
